@@ -81,6 +81,7 @@ type cfg struct {
 	Chunk    int    `json:"chunk"`
 	Prefetch int    `json:"prefetch_chunk"`
 	Cache    string `json:"cache"` // memory | dir
+	ReadSize int    `json:"read_size,omitempty"` // registry bodies arrive in pieces of this many bytes (0 = at once)
 }
 
 type world struct {
@@ -103,6 +104,7 @@ func newWorld(c cfg, scratch string, script func(r *memreg.Req) memreg.Action) (
 	w.dgst = digest.FromBytes(w.data)
 	w.reg.AddBlob(w.dgst.String(), w.data)
 	w.reg.Script = script
+	w.reg.ReadSize = c.ReadSize
 	var inner cache.BlobCache
 	if c.Cache == "dir" {
 		d, err := os.MkdirTemp(scratch, "c06-")
@@ -390,6 +392,10 @@ func seqConfigs(tier string) []cfg {
 						continue
 					}
 					out = append(out, cfg{Size: s, Chunk: c, Prefetch: pf, Cache: ca})
+					if ca == "memory" && pf == 0 && c >= 3 {
+						// fragmented bodies: chunk data reaches the writers in several Write calls
+						out = append(out, cfg{Size: s, Chunk: c, Prefetch: pf, Cache: ca, ReadSize: 2})
+					}
 				}
 			}
 		}
@@ -598,7 +604,7 @@ func concScenario(cc concCase, scratch string) *vexp.Scenario {
 					return menu[vrt.Choose("server-reply", len(menu))]
 				}
 				var err error
-				w, err = newWorld(cc.Cfg, scratch, script)
+				vrt.Quiet(func() { w, err = newWorld(cc.Cfg, scratch, script) })
 				if err != nil {
 					outs = []string{"resolve-failed"}
 					return
